@@ -268,7 +268,18 @@ struct Shared {
     errors: Mutex<Vec<String>>,
 }
 
+/// The snapshot targets a case's servers are configured with: the plan's own in two of three cases,
+/// otherwise drawn from small sets that include zero and one (operators may configure either).
+fn config_for(plan: &Plan, h: &History, case: usize, origin: &str) -> Config {
+    if origin == "scope" || case % 3 != 2 {
+        return plan.config;
+    }
+    let mut r = Rng::new(h.seed).fork(0xCF6);
+    Config { snapshot_days: *r.pick(&[0i64, 1, 2, 14, 30]), snapshot_versions: *r.pick(&[0u32, 1, 2, 3, 4, 7, 100]) }
+}
+
 fn run_case(plan: &Plan, h: &History, case: usize, origin: &str, sh: &Shared) {
+    let config = config_for(plan, h, case, origin);
     let mut outs: Vec<(Kind, RunOut)> = vec![];
     let mut subjects: Vec<(Kind, Option<std::collections::HashSet<Uuid>>)> = plan.kinds.iter().map(|k| (*k, None)).collect();
     if plan.allowlisted_variant {
@@ -287,7 +298,7 @@ fn run_case(plan: &Plan, h: &History, case: usize, origin: &str, sh: &Shared) {
         subjects.push((Kind { backend: Backend::Sqlite, entry: Entry::Http, reopen_pct: 8, socket: true, peers: false }, Some(ids)));
     }
     for (si, (kind, allow)) in subjects.iter().enumerate() {
-        let made = if Some(si) == binary_idx { Subject::with_binary(plan.config, allow.clone(), 8) } else { Subject::with(*kind, plan.config, allow.clone(), None) };
+        let made = if Some(si) == binary_idx { Subject::with_binary(config, allow.clone(), 8) } else { Subject::with(*kind, config, allow.clone(), None) };
         let mut subj = match made {
             Ok(s) => s,
             Err(e) => {
@@ -316,7 +327,7 @@ fn run_case(plan: &Plan, h: &History, case: usize, origin: &str, sh: &Shared) {
         // C09 two-run
         if plan.compare == Compare::TwoRun && out.violations.is_empty() {
             for x in 0..h.n_clients {
-                let mut solo_subj = match Subject::new(*kind, plan.config) {
+                let mut solo_subj = match Subject::new(*kind, config) {
                     Ok(s) => s,
                     Err(_) => continue,
                 };
@@ -591,6 +602,7 @@ pub fn plan_for(id: &str, tier: &str) -> Option<Plan> {
     match id {
         "C01" => {
             p.property = "C01";
+            p.allowlisted_variant = true;
             p.mon.chain = true;
             p.binary_every = if thorough { 6 } else { 16 };
             p.long = (n(2, 40), n(600, 2000));
@@ -599,6 +611,7 @@ pub fn plan_for(id: &str, tier: &str) -> Option<Plan> {
         }
         "C02" => {
             p.property = "C02";
+            p.allowlisted_variant = true;
             p.mon.cas = true;
             p.scope = Some(Scope { kind: ScopeKind::Parent, max_len: n(5, 8) });
             p.n_random = n(200, 5000);
@@ -619,6 +632,7 @@ pub fn plan_for(id: &str, tier: &str) -> Option<Plan> {
         }
         "C08" => {
             p.property = "C08";
+            p.allowlisted_variant = true;
             p.mon.gcv = true;
             p.scope = Some(Scope { kind: ScopeKind::Parent, max_len: n(6, 8) });
             p.n_random = n(600, 6000);
@@ -641,6 +655,7 @@ pub fn plan_for(id: &str, tier: &str) -> Option<Plan> {
         }
         "C10" => {
             p.property = "C10";
+            p.allowlisted_variant = true;
             p.mon.snapwin = true;
             p.scope = Some(Scope { kind: ScopeKind::Snapshot, max_len: n(6, 8) });
             p.n_random = n(200, 5000);
@@ -651,6 +666,7 @@ pub fn plan_for(id: &str, tier: &str) -> Option<Plan> {
         }
         "C11" => {
             p.property = "C11";
+            p.allowlisted_variant = true;
             p.mon.snapget = true;
             p.profile.pause_per_10k = 4;
             p.n_random = n(300, 6000);
@@ -691,6 +707,7 @@ pub fn plan_for(id: &str, tier: &str) -> Option<Plan> {
         }
         "C18" => {
             p.property = "C18";
+            p.allowlisted_variant = true;
             p.mon.frame = true;
             p.n_random = n(200, 5000);
             p.profile.w_kind = [30, 25, 25, 12, 8];
